@@ -213,7 +213,17 @@ def get_next_chunk(start: int,
     next_range = next_chunk(start, len(field), chunk_size)
     next_ = field.data[next_range[0]:next_range[1]]
     if next_range[1] != len(field):
-        next_range = next_range[0], next_range[0] + count_back(next_)
+        trimmed = count_back(next_)
+        while trimmed == 0:
+            # the whole window is one run of equal values: widen it until the run ends,
+            # otherwise the caller is handed an empty chunk and can make no progress
+            chunk_size *= 2
+            next_range = next_chunk(start, len(field), chunk_size)
+            next_ = field.data[next_range[0]:next_range[1]]
+            if next_range[1] == len(field):
+                return next_range, next_
+            trimmed = count_back(next_)
+        next_range = next_range[0], next_range[0] + trimmed
     return next_range, next_
 
 
@@ -1337,10 +1347,11 @@ def generate_ordered_map_to_left_streamed(left: Field,
 
         # update which part of left we are writing for; note we don't need to fetch the data
         # itself as we are mapping left on a 1:1 basis for the rest of its length
-        l_chunk = next_chunk(l_chunk[1], len(left), chunksize)
-        i_max = l_chunk[1] - l_chunk[0]
-        i_off = l_chunk[0]
-        i = 0
+        if i >= i_max:
+            l_chunk = next_chunk(l_chunk[1], len(left), chunksize)
+            i_max = l_chunk[1] - l_chunk[0]
+            i_off = l_chunk[0]
+            i = 0
 
         # write the result buffer
         if r > 0:
@@ -1405,10 +1416,11 @@ def generate_ordered_map_to_left_left_unique_streamed(left: Field,
 
         # update which part of left we are writing for; note we don't need to fetch the data
         # itself as we are mapping left on a 1:1 basis for the rest of its length
-        l_chunk = next_chunk(l_chunk[1], len(left), chunksize)
-        i_max = l_chunk[1] - l_chunk[0]
-        i_off = l_chunk[0]
-        i = 0
+        if i >= i_max:
+            l_chunk = next_chunk(l_chunk[1], len(left), chunksize)
+            i_max = l_chunk[1] - l_chunk[0]
+            i_off = l_chunk[0]
+            i = 0
 
         # write the result buffer
         if r > 0:
@@ -1455,10 +1467,11 @@ def generate_ordered_map_to_left_right_unique_streamed(left: Field,
         i, r = generate_ordered_map_to_left_right_unique_remaining(i_max, r_result_, i, r, invalid)
 
         # update the left chunk if necessary
-        l_chunk = next_chunk(l_chunk[1], len(left), chunksize)
-        i_max = l_chunk[1] - l_chunk[0]
-        i_off = l_chunk[0]
-        i = 0
+        if i >= i_max:
+            l_chunk = next_chunk(l_chunk[1], len(left), chunksize)
+            i_max = l_chunk[1] - l_chunk[0]
+            i_off = l_chunk[0]
+            i = 0
 
         # write the result buffer
         if r > 0:
@@ -1502,10 +1515,11 @@ def generate_ordered_map_to_left_both_unique_streamed(left: Field,
         i, r = generate_ordered_map_to_left_right_unique_remaining(i_max, r_result_, i, r, invalid)
 
         # update the left chunk if necessary
-        l_chunk = next_chunk(l_chunk[1], len(left), chunksize)
-        i_max = l_chunk[1] - l_chunk[0]
-        i_off = l_chunk[0]
-        i = 0
+        if i >= i_max:
+            l_chunk = next_chunk(l_chunk[1], len(left), chunksize)
+            i_max = l_chunk[1] - l_chunk[0]
+            i_off = l_chunk[0]
+            i = 0
 
         # write the result buffer
         if r > 0:
@@ -1657,7 +1671,7 @@ def generate_ordered_map_to_left_right_unique_partial(left,
                                                       i,
                                                       j,
                                                       r):
-    while i < i_max and j < len(right):
+    while i < i_max and j < len(right) and r < len(r_result):
         if left[i] < right[j]:
             r_result[r] = invalid
             i += 1
@@ -2089,7 +2103,7 @@ def generate_ordered_map_to_inner_left_unique_partial(left,
                                                       i,
                                                       j,
                                                       r):
-    while i < i_max and j < j_max:
+    while i < i_max and j < j_max and r < len(l_result):
         if left[i] < right[j]:
             i += 1
         elif left[i] > right[j]:
@@ -2116,7 +2130,7 @@ def generate_ordered_map_to_inner_right_unique_partial(left,
                                                        i,
                                                        j,
                                                        r):
-    while i < i_max and j < j_max:
+    while i < i_max and j < j_max and r < len(l_result):
         if left[i] < right[j]:
             i += 1
         elif left[i] > right[j]:
@@ -2143,7 +2157,7 @@ def generate_ordered_map_to_inner_both_unique_partial(left,
                                                       i,
                                                       j,
                                                       r):
-    while i < i_max and j < j_max:
+    while i < i_max and j < j_max and r < len(l_result):
         if left[i] < right[j]:
             i += 1
         elif left[i] > right[j]:
